@@ -79,3 +79,45 @@ func VerifC11Wire() {
 	// the arbitrary line itself got an answer: some tagged / untagged BAD or NO line, or it was empty / a valid command
 	vsymAssert(len(conn.lines) >= strings.Count(pre, "\r\n")+2, "every line got an answer")
 }
+
+// VerifC11WireLines: m command lines, each chosen from a pool of well-formed and malformed tagged lines (any protocol
+// state may result), then LOGOUT, through the same session loop: every line is answered by exactly one completion
+// result carrying the line's tag, in order, and the session stays usable to the end.
+func VerifC11WireLines() {
+	m := vsymParam("m")
+	pool := []string{"NOOP", "BOGUS", "FETCH 1 (", "SELECT INBOX", "LOGIN alice pw1", "LOGIN alice \"pw", "SEARCH OR", "UID FETCH 1:* (FLAGS)", "STORE 1 +FLAGS (\\Seen"}
+	var script []byte
+	var tags []string
+	for i := 0; i < m; i++ {
+		tag := "t" + string(rune('0'+i))
+		tags = append(tags, tag)
+		script = append(script, (tag + " " + pool[vsymChoice("line", len(pool))] + "\r\n")...)
+	}
+	tags = append(tags, "z")
+	script = append(script, "z LOGOUT\r\n"...)
+	conn := &verifScriptConn{in: script}
+	ev := make(chan events.Event, 64)
+	s := New(conn, backend.VerifNewBackendUsers(), 1, version.Info{}, nil, ev, 0, nil)
+	err := s.serve(context.Background())
+	vsymSched()
+	vsymCover("lines-served")
+	vsymAssert(err == nil, "the session loop ends without an error after LOGOUT")
+	var got []string
+	for _, l := range conn.lines {
+		if strings.HasPrefix(l, "* ") || strings.HasPrefix(l, "+ ") || l == "+" {
+			continue
+		}
+		f := strings.Fields(l)
+		if len(f) >= 2 && (f[1] == "OK" || f[1] == "NO" || f[1] == "BAD") {
+			got = append(got, f[0])
+		} else {
+			vsymAssert(false, "every line the session writes is an untagged response, a continuation request or a tagged completion result")
+		}
+	}
+	vsymAssert(len(got) == len(tags), "every command line is answered by exactly one completion result")
+	if len(got) == len(tags) {
+		for i := range tags {
+			vsymAssert(got[i] == tags[i], "completion results carry the tags of the lines, in order")
+		}
+	}
+}
